@@ -105,6 +105,7 @@ class Walker:
     """walks the AST keeping track of the current source file (clang prints `file` only when it changes)"""
 
     def __init__(self):
+        self.free = []
         self.file = None
         self.defs = []          # (header, name, kind)
         self.funcs = []         # dicts
@@ -167,6 +168,7 @@ class Walker:
                     writes=sorted(set(acc)), hdr=self.header() or "?", has_body=self.has_body(node),
                     vparams=sum(1 for t in ptypes if "VertexIndex" in t or t in ("unsigned int",)))
 
+
     def walk(self, node, cls=None, access="public", templated=False, depth=0):
         self.note_loc(node)
         k = node.get("kind")
@@ -227,6 +229,8 @@ class Walker:
                 return
             r = self.func_record(node, cls, templated)
             self.funcs.append(r)
+            if k == "FunctionDecl" and cls is None:
+                self.free.append((hdr, node.get("name", "?"), r["vparams"]))
             if not self.has_body(node):
                 return
             name = node.get("name", "?")
@@ -356,6 +360,10 @@ def main():
              "def entryPoints : List (String × String × Nat) := ["]
     rows = sorted(set(w.entry))
     lines.append(",\n".join(f"  ({lean_str(c)}, {lean_str(m)}, {n})" for (c, m, n) in rows))
+    lines += ["]", "", "/-- (header, free function, number of parameters whose type mentions a vertex index) -/",
+              "def freeEntryPoints : List (String × String × Nat) := ["]
+    frows = sorted(set(w.free))
+    lines.append(",\n".join(f"  ({lean_str(h)}, {lean_str(m)}, {n})" for (h, m, n) in frows))
     lines += ["]", "", "end BGVGen", ""]
     open(os.path.join(OUT, "EntryPoints.lean"), "w").write("\n".join(lines))
     summary = dict(headers=len(hs), unguarded=[h for h in hs if not guard_of(open(os.path.join(INC, h)).read())],
